@@ -51,14 +51,27 @@ def rd_tag(t):
     return int(t[1:]) if isinstance(t, str) and t[0] == "t" else 999
 
 
+FLEX7 = [[0, 60], [2, 120]]
+
+
 def mk_tempo(n):
+    """tempo ids: 0 none, 7 a trajectory, 8 a WesternTempo with a reference, otherwise the constant 60 + n"""
+    if n == 7:
+        return cp.FlexTempo(FLEX7)
+    if n == 8:
+        return cp.WesternTempo(60, reference=2)
     return None if n == 0 else cp.DirectTempo(60 + n)
 
 
 def rd_tempo(e):
     t = e.tempo
-    if isinstance(t, cp.DirectTempo):
+    if type(t) is cp.DirectTempo:
         return int(round(t.bpm)) - 60
+    if type(t) is cp.FlexTempo and [[float(x), float(v)] for x, v in zip(t.absolute_time_tuple, t.value_tuple)] == [[0.0, 60.0], [2.0, 120.0]] \
+            and list(t.curve_shape_tuple) == [0, 0]:
+        return 7
+    if type(t) is cp.WesternTempo and t.bpm == 120 and t.reference == 2:
+        return 8
     return 999
 
 
@@ -420,7 +433,7 @@ def apply_op1(t, op):
         return r, [["recv", snap(t)]]
     if k == "mul":
         n = int(op[1])
-        r = t * n
+        r = (n * t) if n % 2 else (t * n)            # the repetition written either way round
         extra = [["recv", snap(t)]]
         if len(t) and any(r[i] is not t[i % len(t)] for i in range(len(r))):
             extra.append(["repetition-does-not-repeat-the-children-themselves"])
@@ -560,6 +573,24 @@ def run1(case):
                 out.append(err(e))
                 break
             out.append(["ok", snap(t)])
+        return out
+    if k == "chist":
+        # a history of tag / index operations on ONE container object
+        t = build(case[1])
+        out = ["chist"]
+        for op in case[2:]:
+            try:
+                if op[0] == "get_tag":
+                    out.append(["ok", snap(t[mk_tag(int(op[1]))])])
+                else:
+                    r, _ = apply_op(t, op)
+                    if r is not t:
+                        out.append(["ok", snap(r), ["result-is-not-the-receiver", snap(t)]])
+                        t = r
+                    else:
+                        out.append(["ok", snap(t)])
+            except Exception as e:  # noqa
+                out.append(err(e))
         return out
     if k == "c01":
         t = build(case[1])
